@@ -85,6 +85,8 @@ Run == st = "run" /\ Next /\ HistNext /\ UNCHANGED <<st, files, level>>
 
 PNext == Pick \/ Run
 Spec == Init /\ [][PNext]_pvars
+\* Emission of the edge relations only (QLogFileProps.gen*.cfg).
+GenSpec == Init /\ [][Pick]_pvars
 
 \* --------------------------------------------- the sentences of the property
 Running == st = "run"
